@@ -147,6 +147,60 @@ def read_seed_range():
     return {"low": calls[0][1], "high": calls[0][2], "sites": sorted(c[0] for c in calls), "fingerprint": fp}
 
 
+_IDX_NAMES = {"i": "i", "n_simulation_saved": "nSaved", "n_sims": "n"}
+_IDX_OPS = {ast.Add: "+", ast.Sub: "-", ast.Mult: "*", ast.FloorDiv: "/", ast.Mod: "%"}
+
+
+def _idx_to_lean(node):
+    if isinstance(node, ast.Name) and node.id in _IDX_NAMES:
+        return _IDX_NAMES[node.id]
+    if isinstance(node, ast.Constant) and isinstance(node.value, int) and not isinstance(node.value, bool) \
+            and node.value >= 0:
+        return str(node.value)
+    if isinstance(node, ast.BinOp) and type(node.op) in _IDX_OPS:
+        return f"({_idx_to_lean(node.left)} {_IDX_OPS[type(node.op)]} {_idx_to_lean(node.right)})"
+    raise ExtractError(f"initialize_emissions.py:{getattr(node, 'lineno', '?')}: seed index expression "
+                       f"{ast.unparse(node)!r} is outside the translatable subset")
+
+
+def read_seed_index():
+    """the expression inside emis_preseed_val[...] handed to np.random.seed in the two generation loops of
+    initialize_emissions (fresh run: `for i in range(n_sims)`, extension: `for i in range(n_simulation_saved, n_sims)`)"""
+    path = os.path.join(shim.REPO_SRC, "initialization", "initialize_emissions.py")
+    src = open(path).read()
+    fn = None
+    for node in ast.parse(src).body:
+        if isinstance(node, ast.FunctionDef) and node.name == "initialize_emissions":
+            fn = node
+    if fn is None:
+        raise ExtractError("initialize_emissions.py: initialize_emissions not found")
+    loops = []
+    for node in ast.walk(fn):
+        if isinstance(node, ast.For) and isinstance(node.target, ast.Name) and isinstance(node.iter, ast.Call) \
+                and isinstance(node.iter.func, ast.Name) and node.iter.func.id == "range":
+            seeds = [c for c in ast.walk(node) if isinstance(c, ast.Call) and isinstance(c.func, ast.Attribute)
+                     and c.func.attr == "seed"]
+            if not seeds:
+                continue
+            if len(seeds) != 1 or len(seeds[0].args) != 1:
+                raise ExtractError(f"initialize_emissions.py:{node.lineno}: one np.random.seed(x) per loop expected")
+            arg = seeds[0].args[0]
+            if not (isinstance(arg, ast.Subscript) and isinstance(arg.value, ast.Name)
+                    and arg.value.id == "emis_preseed_val"):
+                raise ExtractError(f"initialize_emissions.py:{arg.lineno}: np.random.seed(emis_preseed_val[...]) expected, "
+                                   f"found {ast.unparse(arg)!r}")
+            if node.target.id != "i":
+                raise ExtractError(f"initialize_emissions.py:{node.lineno}: loop variable is no longer `i`")
+            loops.append({"line": node.lineno, "range": ast.unparse(node.iter), "nargs": len(node.iter.args),
+                          "index_src": ast.unparse(arg.slice), "index_lean": _idx_to_lean(arg.slice)})
+    fresh = [l for l in loops if l["nargs"] == 1]
+    ext = [l for l in loops if l["nargs"] == 2]
+    if len(fresh) != 1 or len(ext) != 1:
+        raise ExtractError(f"initialize_emissions.py: expected one fresh and one extension loop, found {loops}")
+    fp = hashlib.sha256(ast.dump(fn).encode()).hexdigest()[:16]
+    return {"fresh": fresh[0], "extend": ext[0], "fingerprint": fp}
+
+
 # ------------------------------------------------------------------------------------------------
 def lean_rat(x: Fraction) -> str:
     n, d = x.numerator, x.denominator
@@ -228,17 +282,30 @@ end LdarModel.Generated.Units
 """
 
 
-def render_seed(s) -> str:
+def render_seed(s, ix) -> str:
     return f"""/-
-GENERATED by harness/extract/units.py from /repo/LDAR_Sim/src/initialization/preseed.py
-(gen_seed_emis, np.random.randint call sites at lines {s['sites']}) — rewritten on every run of
-./check C16, do not edit.   fingerprint of gen_seed_emis: {s['fingerprint']}
+GENERATED by harness/extract/units.py — rewritten on every run of ./check C16, do not edit.
+from /repo/LDAR_Sim/src/initialization/preseed.py: gen_seed_emis, np.random.randint call sites at lines
+{s['sites']}; fingerprint of gen_seed_emis: {s['fingerprint']}
+from /repo/LDAR_Sim/src/initialization/initialize_emissions.py: the index handed to
+np.random.seed(emis_preseed_val[...]) in the fresh-run loop (line {ix['fresh']['line']}, `{ix['fresh']['range']}`,
+index `{ix['fresh']['index_src']}`) and in the extension loop (line {ix['extend']['line']}, `{ix['extend']['range']}`,
+index `{ix['extend']['index_src']}`); fingerprint of initialize_emissions: {ix['fingerprint']}
 -/
+set_option linter.unusedVariables false
 namespace LdarModel.Generated.EmisSeed
 
 /-- `np.random.randint(seedLow, seedHigh)`: values `seedLow ≤ v < seedHigh` -/
 def seedLow : Nat := {s['low']}
 def seedHigh : Nat := {s['high']}
+
+/-- seed index of the fresh-run loop (`i` loop variable, `nSaved` n_simulation_saved, `n` n_sims) -/
+def seedIdxFresh (i nSaved n : Nat) : Nat := {ix['fresh']['index_lean']}
+/-- seed index of the extension loop -/
+def seedIdxExtend (i nSaved n : Nat) : Nat := {ix['extend']['index_lean']}
+
+def seedIdx (fresh : Bool) (i nSaved n : Nat) : Nat :=
+  if fresh then seedIdxFresh i nSaved n else seedIdxExtend i nSaved n
 
 end LdarModel.Generated.EmisSeed
 """
@@ -258,12 +325,14 @@ def regenerate():
     """returns (units_info, seed_info, changed_files)"""
     u = read_unit_tables()
     s = read_seed_range()
+    ix = read_seed_index()
+    s["index"] = ix
     if s["low"] < 0 or s["high"] < 0:
         raise ExtractError("negative randint bounds are outside the seed model")
     changed = []
     if _write_if_changed(os.path.join(LEAN_GEN, "Units.lean"), render_units(u)):
         changed.append("Generated/Units.lean")
-    if _write_if_changed(os.path.join(LEAN_GEN, "EmisSeed.lean"), render_seed(s)):
+    if _write_if_changed(os.path.join(LEAN_GEN, "EmisSeed.lean"), render_seed(s, ix)):
         changed.append("Generated/EmisSeed.lean")
     return u, s, changed
 
